@@ -593,7 +593,7 @@ pub fn run(ctx: Ctx) -> i32 {
     report.exhaustive("all listed lengths, tags (4 classes x 0..30), boolean octets 0..255, integer boundary families, enumerated indices for 1,2,3,127,128,255,256,300 items");
     // sequences
     let shards = 16u64;
-    let cases = ctx.tier.pick(30_000, 1_000_000);
+    let cases = ctx.tier.pick(150_000, 1_000_000);
     use rayon::prelude::*;
     (0..shards).into_par_iter().for_each(|shard| {
         let mut runner = report.ctx.runner("seq", shard, cases);
